@@ -20,6 +20,7 @@ import (
 	"bufio"
 	"fmt"
 	"io"
+	"io/ioutil"
 	"net/http"
 
 	"github.com/go-netty/go-netty"
@@ -45,6 +46,11 @@ func (*requestCodec) HandleRead(ctx netty.InboundContext, message netty.Message)
 			if request.Close {
 				ctx.Close(fmt.Errorf("request mark closed"))
 				return
+			}
+			// discard what the handler left unread of the request body: the body is read lazily from
+			// the same stream, so the rest of it would be parsed as the next request
+			if nil != request.Body {
+				_, _ = io.Copy(ioutil.Discard, request.Body)
 			}
 		}
 	default:
